@@ -25,6 +25,7 @@ $env.n = 0
     if $frame.topic in ["xs.threshold" "xs.pulse"] {{ return }}
     $env.n = $env.n + 1
     {sleep}
+    if $frame.topic == "relay-me" {{ "relayed" | .append relayed --meta $frame.meta }}
     {{seen: $frame.id, n: $env.n, cfg: $env.CFG, topic: $frame.topic}}
   }}
 }}"#
@@ -133,6 +134,11 @@ fn case(srv: &mut Srv, seed: u64, res: &mut CaseResult) -> R<()> {
     let per = (burst_n / writers.max(1)).max(1);
     srv.call(json!({"op": "burst", "topic": "b", "ctx": ctx.to_string(), "n": per, "writers": writers, "tag": 1}))?;
     srv.call(json!({"op": "burst", "topic": "b", "ctx": ctx_b.to_string(), "n": 5, "writers": 2, "tag": 2}))?;
+    // frames whose meta the handler copies onto an explicit append: the meta already names another handler
+    for i in 0..3 {
+        let foreign = if with_old_instance { pre.first().map(|f| f.id.to_string()).unwrap_or_else(|| "03gy4klv2h02u3x987n90p9hd".into()) } else { "03gy4klv2h02u3x987n90p9hd".to_string() };
+        srv.must_append("relay-me", ctx, None, Some(json!({"handler_id": foreign, "i": i})), None)?;
+    }
     for i in 0..6 {
         srv.must_append("t2", ctx, None, Some(json!({"i": i})), None)?;
         srv.must_append("e", ctx, None, Some(json!({"eph": i})), Some(TTL::Ephemeral))?;
@@ -155,8 +161,8 @@ fn case(srv: &mut Srv, seed: u64, res: &mut CaseResult) -> R<()> {
     let mut must: Vec<&Frame> = vec![];
     let mut may: Vec<&Frame> = vec![];
     for f in &in_ctx {
-        // skip rules
-        if meta_str(f, "handler_id") == Some(&hid) {
+        // skip rules (frames on topic "relayed" are this handler's explicit appends by construction)
+        if meta_str(f, "handler_id") == Some(&hid) || f.topic == "relayed" {
             continue;
         }
         if (f.topic == "h.register" || f.topic == "h.unregister") && f.id <= h {
@@ -205,7 +211,7 @@ fn case(srv: &mut Srv, seed: u64, res: &mut CaseResult) -> R<()> {
             s.sort();
             s.windows(2).any(|w| w[0] == w[1])
         };
-        let own = main_seen.iter().any(|s| log.iter().any(|f| &f.id.to_string() == s && meta_str(f, "handler_id") == Some(&hid)));
+        let own = main_seen.iter().any(|s| log.iter().any(|f| &f.id.to_string() == s && (meta_str(f, "handler_id") == Some(&hid) || f.topic == "relayed")));
         let foreign = main_seen.iter().any(|s| log.iter().any(|f| &f.id.to_string() == s && f.context_id != ctx));
         let oldreg = main_seen.iter().any(|s| log.iter().any(|f| &f.id.to_string() == s && (f.topic == "h.register" || f.topic == "h.unregister") && f.id <= h));
         let after_stop = main_seen.iter().any(|s| s == &late.id.to_string());
